@@ -147,14 +147,18 @@ class ScriptedSearch(NonLinearSearch):
 class Quad(af.Analysis):
     """likelihood = -(sum over parameters of (value - target_i)^2) / scale"""
 
-    def __init__(self, offset=0.0, scale=1.0, attrs=None):
+    def __init__(self, offset=0.0, scale=1.0, attrs=None, trunc=False):
         self.offset = offset
         self.scale = scale
         self.attrs = attrs or {}
+        self.trunc = trunc  # whole-number likelihoods: good fits reach exactly 0.0 (ties, a falsy maximum)
 
     def log_likelihood_function(self, instance):
         vals = flat_values(instance)
-        return -sum((v - self.offset - 0.25 * i) ** 2 for i, v in enumerate(vals)) / self.scale
+        ll = -sum((v - self.offset - 0.25 * i) ** 2 for i, v in enumerate(vals)) / self.scale
+        if self.trunc:
+            ll = float(int(ll)) + 0.0
+        return ll
 
     def save_attributes(self, paths):
         for k, v in self.attrs.items():
